@@ -7,8 +7,8 @@
    completed transactions are exported as abstract coverage classes.  Deliberately broken variants of
    the envelope (commit on failure, no refund, no balance check, ...) must violate the clauses
    (specification self-test).
-2. TLC explores spec/ContractOps.tla (operation alphabet of the five embedded contracts and of the
-   bundled WASM contracts over a lifecycle abstraction) and exports an edge cover: every operation
+2. TLC explores spec/ContractOps.tla (operation alphabet of the five embedded contracts, of the
+   bundled WASM contracts and of a hand-assembled WASM contract that moves DNA, over a lifecycle abstraction) and exports an edge cover: every operation
    class attempted in every lifecycle state, plus seeded random walks (simulation mode).
 3. harness/cmd/d_contract concretises the scenarios into real signed transactions and runs them on
    a real chain (one contract transaction per block, or two for "pair" operations), recording ledger
@@ -257,6 +257,8 @@ def main(ctx):
         cnt["wasm_ok"] += x["tx"]["wasm"] and x["rc"]["success"]
         cnt["wasm_fail"] += x["tx"]["wasm"] and not x["rc"]["success"]
         cnt["subcall"] += x["tx"]["wasm"] and e["commits"] > 1
+        cnt["wasm_transfer"] += x["tx"]["wasm"] and x["rc"]["success"] and len(e["req"]) >= 2
+        cnt["wasm_burn"] += x["tx"]["wasm"] and x["rc"]["success"] and bool(e["burnt"])
         cnt["burn"] += bool(e["burnt"]) and x["rc"]["success"]
         cnt["term"] += bool(e["term"]) and x["rc"]["success"]
         cnt["stake_move"] += bool(e["sh"]["moved"]) and x["rc"]["success"]
@@ -265,7 +267,7 @@ def main(ctx):
         cnt["fail_after_writes"] += (not x["rc"]["success"]) and e["sh"]["ran"] and e["sh"]["ok"] and bool(e["sh"]["writes"])
         cnt["escrow_refund"] += (not x["rc"]["success"]) and bool(x["tx"]["amount"]) and (x["tx"]["kind"] == "call" or x["tx"]["wasm"])
         cnt["out_of_gas"] += (not x["rc"]["success"]) and "gas" in x["err"].lower()
-    need = ["wasm_ok", "wasm_fail", "subcall", "burn", "term", "stake_move", "transfer", "pair", "fail_after_writes", "escrow_refund", "out_of_gas"]
+    need = ["wasm_ok", "wasm_fail", "subcall", "wasm_transfer", "wasm_burn", "burn", "term", "stake_move", "transfer", "pair", "fail_after_writes", "escrow_refund", "out_of_gas"]
     need += [(c, True) for c in EMBEDDED] + [(c, False) for c in EMBEDDED]
     dead = [str(k) for k in need if not cnt[k]]
     if dead:
@@ -348,7 +350,7 @@ def main(ctx):
         "exhaustive": False,
         "rule": "envelope model explored exhaustively within bounds; every operation class (method x argument class x pay-amount class x "
                 "gas class x caller role x pair, <= %d deviations from the well-formed default) attempted in every lifecycle state of the 5 "
-                "embedded and 5 bundled wasm contracts: %d sampled transitions (all well-formed ones) + %d random walks of 24 operations, "
+                "embedded, 5 bundled wasm and 1 hand-assembled wasm contracts: %d sampled transitions (all well-formed ones) + %d random walks of 24 operations, "
                 "each executed on a real chain, one contract transaction per block (two for pair operations)"
                 % (2 if quick else 3, len(cases), len(walks)),
     }
